@@ -112,7 +112,7 @@ def finish(ctx, t0, seed=0, extra_cov=None):
             kf.append((ob, kk))
         else:
             viol.append(ob)
-    ev_dir = os.path.join(VERIF, "evidence")
+    ev_dir = os.environ.get("BL_EVIDENCE_DIR") or os.path.join(VERIF, "evidence")
     os.makedirs(os.path.join(ev_dir, "replay"), exist_ok=True)
     for n in os.listdir(os.path.join(ev_dir, "replay")):
         if n.startswith(ctx.prop + "-"):
